@@ -338,9 +338,201 @@ func advBlock(rng *RNG) []byte {
 	return bs
 }
 
+// advBlockFocused builds a VALID version-3 block (declared symbols, in-range indexes, a rule, a
+// well-typed check, facts of every term type) and then injects exactly ONE fault, so that the
+// token passes every stage up to the one the fault concerns (a token with many faults dies at
+// the first of them and exercises little).
+func advBlockFocused(rng *RNG) ([]byte, string) {
+	str := func(i uint64) *pb.TermV2 { return &pb.TermV2{Content: &pb.TermV2_String_{String_: i}} }
+	vr := func(i uint32) *pb.TermV2 { return &pb.TermV2{Content: &pb.TermV2_Variable{Variable: i}} }
+	in := func(i int64) *pb.TermV2 { return &pb.TermV2{Content: &pb.TermV2_Integer{Integer: i}} }
+	by := func(b ...byte) *pb.TermV2 { return &pb.TermV2{Content: &pb.TermV2_Bytes{Bytes: b}} }
+	set := func(e ...*pb.TermV2) *pb.TermV2 {
+		return &pb.TermV2{Content: &pb.TermV2_Set{Set: &pb.TermSet{Set: e}}}
+	}
+	pred := func(name uint64, ts ...*pb.TermV2) *pb.PredicateV2 {
+		return &pb.PredicateV2{Name: proto.Uint64(name), Terms: ts}
+	}
+	fact := func(name uint64, ts ...*pb.TermV2) *pb.FactV2 { return &pb.FactV2{Predicate: pred(name, ts...)} }
+	val := func(t *pb.TermV2) *pb.Op { return &pb.Op{Content: &pb.Op_Value{Value: t}} }
+	bin := func(k pb.OpBinary_Kind) *pb.Op { return &pb.Op{Content: &pb.Op_Binary{Binary: &pb.OpBinary{Kind: &k}}} }
+	query := func(body []*pb.PredicateV2, exprs ...*pb.ExpressionV2) *pb.RuleV2 {
+		return &pb.RuleV2{Head: pred(27), Body: body, Expressions: exprs}
+	}
+	// symbols 1024.. : a b file1 ; defaults used: read(0) resource(2) right(4) owner(7)
+	b := &pb.Block{Version: proto.Uint32(3), Symbols: []string{"a", "b", "file1"}}
+	b.FactsV2 = []*pb.FactV2{fact(4, str(1026), str(0)), fact(1024, str(1026), in(1)), fact(1025, by(1, 2)), fact(7, set(in(1), in(2)))}
+	b.RulesV2 = []*pb.RuleV2{{Head: pred(2, vr(1024)), Body: []*pb.PredicateV2{pred(4, vr(1024), str(0))}}}
+	b.ChecksV2 = []*pb.CheckV2{{Queries: []*pb.RuleV2{query([]*pb.PredicateV2{pred(4, vr(1024), vr(1025))},
+		&pb.ExpressionV2{Ops: []*pb.Op{val(vr(1025)), val(str(0)), bin(pb.OpBinary_Equal)}})}}}
+	advIdx := func() uint64 {
+		return []uint64{28, 29, 1023, 1027, 1028, 2000, 1 << 31, 1<<32 - 1, 1 << 32, 1 << 63, math.MaxUint64}[rng.Intn(11)]
+	}
+	typed := func(k int) *pb.TermV2 {
+		switch k {
+		case 0:
+			return by(7, 8)
+		case 1:
+			return set(in(1), in(2))
+		case 2:
+			return set(by(1), by(2))
+		case 3:
+			return &pb.TermV2{Content: &pb.TermV2_Date{Date: 1700000000}}
+		case 4:
+			return &pb.TermV2{Content: &pb.TermV2_Bool{Bool: true}}
+		case 5:
+			return str(1026)
+		case 6:
+			return set(str(0), str(1026))
+		}
+		return in(7)
+	}
+	fault := ""
+	switch f := rng.Intn(14); f {
+	case 0:
+		fault = "none"
+	case 1: // a string index out of range, at a random position
+		fault = "string-index"
+		i := advIdx()
+		switch rng.Intn(6) {
+		case 0:
+			b.FactsV2[0].Predicate.Terms[0] = str(i)
+		case 1:
+			b.RulesV2[0].Body[0].Terms[1] = str(i)
+		case 2:
+			b.RulesV2[0].Head.Terms = append(b.RulesV2[0].Head.Terms, str(i))
+		case 3:
+			b.ChecksV2[0].Queries[0].Expressions[0].Ops[1] = val(str(i))
+		case 4:
+			b.ChecksV2[0].Queries[0].Expressions[0].Ops[1] = val(set(str(0), str(i)))
+		default:
+			b.FactsV2[3].Predicate.Terms[0] = set(str(i))
+		}
+	case 2: // a variable index out of range, at a random position
+		fault = "variable-index"
+		i := uint32(advIdx())
+		switch rng.Intn(4) {
+		case 0:
+			b.RulesV2[0].Body[0].Terms[0], b.RulesV2[0].Head.Terms[0] = vr(i), vr(i)
+		case 1:
+			q := b.ChecksV2[0].Queries[0]
+			q.Body[0].Terms[1], q.Expressions[0].Ops[0] = vr(i), val(vr(i))
+		case 2:
+			b.ChecksV2[0].Queries[0].Expressions[0].Ops[0] = val(vr(i)) // unbound in the body
+		default:
+			b.RulesV2[0].Head.Terms[0] = vr(i) // head variable the body does not bind
+		}
+	case 3: // a predicate name out of range
+		fault = "name-index"
+		switch rng.Intn(3) {
+		case 0:
+			b.FactsV2[1].Predicate.Name = proto.Uint64(advIdx())
+		case 1:
+			b.RulesV2[0].Head.Name = proto.Uint64(advIdx())
+		default:
+			b.ChecksV2[0].Queries[0].Body[0].Name = proto.Uint64(advIdx())
+		}
+	case 4, 5: // a join through a repeated variable, over every value type
+		fault = "repeated-variable-join"
+		t1, t2 := typed(rng.Intn(8)), typed(rng.Intn(8))
+		if rng.Bool() {
+			t2 = t1
+		}
+		b.FactsV2 = append(b.FactsV2, fact(1024, t1), fact(1025, t2))
+		body := []*pb.PredicateV2{pred(1024, vr(1030)), pred(1025, vr(1030))}
+		if rng.Chance(30) {
+			b.FactsV2 = append(b.FactsV2, fact(1026, t1, t2))
+			body = []*pb.PredicateV2{pred(1026, vr(1030), vr(1030))}
+		}
+		b.ChecksV2 = append(b.ChecksV2, &pb.CheckV2{Queries: []*pb.RuleV2{query(body)}})
+		b.RulesV2 = append(b.RulesV2, &pb.RuleV2{Head: pred(2, vr(1030)), Body: body})
+	case 6: // a constant of every type in a body, facing facts of every type
+		fault = "typed-constant-match"
+		k := rng.Intn(8)
+		b.FactsV2 = append(b.FactsV2, fact(1024, typed(k)), fact(1024, typed(rng.Intn(8))))
+		b.ChecksV2 = append(b.ChecksV2, &pb.CheckV2{Queries: []*pb.RuleV2{query([]*pb.PredicateV2{pred(1024, typed(k))})}})
+	case 7: // ill-formed operator sequences
+		fault = "ill-formed-expression"
+		e := b.ChecksV2[0].Queries[0].Expressions[0]
+		switch rng.Intn(6) {
+		case 0:
+			e.Ops = e.Ops[:2]
+		case 1:
+			e.Ops = e.Ops[2:]
+		case 2:
+			e.Ops = nil
+		case 3:
+			e.Ops = append(e.Ops, &pb.Op{})
+		case 4:
+			e.Ops[2] = &pb.Op{Content: &pb.Op_Binary{Binary: &pb.OpBinary{}}}
+		default:
+			k := pb.OpBinary_Kind(99)
+			e.Ops[2] = &pb.Op{Content: &pb.Op_Binary{Binary: &pb.OpBinary{Kind: &k}}}
+		}
+	case 8: // a term without member / malformed sets, at a random position
+		fault = "malformed-term"
+		t := []*pb.TermV2{{}, set(), set(set(in(1))), set(in(1), str(0)), set(vr(1024)), set(&pb.TermV2{})}[rng.Intn(6)]
+		switch rng.Intn(4) {
+		case 0:
+			b.FactsV2[1].Predicate.Terms[1] = t
+		case 1:
+			b.RulesV2[0].Body[0].Terms[1] = t
+		case 2:
+			b.ChecksV2[0].Queries[0].Expressions[0].Ops[1] = val(t)
+		default:
+			b.RulesV2[0].Head.Terms = append(b.RulesV2[0].Head.Terms, t)
+		}
+	case 9: // variables where ground terms are expected
+		fault = "variable-in-fact"
+		b.FactsV2[rng.Intn(len(b.FactsV2))].Predicate.Terms[0] = vr(uint32([]uint64{0, 27, 28, 1024, 1030}[rng.Intn(5)]))
+	case 10: // an invalid rule with several matches, then an expression that fails
+		fault = "invalid-rule-then-expression-error"
+		b.FactsV2 = append(b.FactsV2, fact(1025, in(1)), fact(1025, in(0)), fact(1025, in(2)))
+		b.RulesV2 = append(b.RulesV2, &pb.RuleV2{Head: pred(2, vr(1031)), Body: []*pb.PredicateV2{pred(1025, vr(1030))},
+			Expressions: []*pb.ExpressionV2{{Ops: []*pb.Op{val(in(10)), val(vr(1030)), bin(pb.OpBinary_Div), val(in(0)), bin(pb.OpBinary_GreaterThan)}}}})
+	case 11: // arithmetic at the boundaries, regular expressions
+		fault = "evaluation-error"
+		ops := [][]*pb.Op{
+			{val(in(math.MinInt64)), val(in(-1)), bin(pb.OpBinary_Div), val(in(0)), bin(pb.OpBinary_Equal)},
+			{val(in(math.MaxInt64)), val(in(math.MaxInt64)), bin(pb.OpBinary_Mul), val(in(0)), bin(pb.OpBinary_Equal)},
+			{val(in(1)), val(in(0)), bin(pb.OpBinary_Div), val(in(0)), bin(pb.OpBinary_Equal)},
+			{val(str(1026)), val(str(1024)), bin(pb.OpBinary_Regex)},
+			{val(str(1026)), val(str(1026)), bin(pb.OpBinary_Add), val(str(1026)), bin(pb.OpBinary_Equal)},
+		}[rng.Intn(5)]
+		b.ChecksV2[0].Queries[0].Expressions[0].Ops = ops
+	case 12: // the symbol table itself
+		fault = "symbol-table"
+		b.Symbols = [][]string{{"a", "a", "file1"}, {"a", "read", "file1"}, {"a", "\xff\xfe", "file1"}, {"", "b", "file1"}, {"a", "b"}}[rng.Intn(5)]
+	default: // the declared version
+		fault = "version"
+		if rng.Bool() {
+			b.Version = nil
+		} else {
+			b.Version = proto.Uint32([]uint32{0, 1, 2, 4, math.MaxUint32}[rng.Intn(5)])
+		}
+	}
+	bs, err := proto.MarshalOptions{AllowPartial: true}.Marshal(b)
+	if err != nil {
+		fatal("marshal focused block: %v", err)
+	}
+	return bs, fault
+}
+
 func genAdversarial(rng *RNG, n int) []advToken {
 	var out []advToken
 	for i := 0; i < n; i++ {
+		if i%2 == 1 {
+			// single-fault tokens: the focused block as authority or as a later block
+			fb, fault := advBlockFocused(rng)
+			blocks := [][]byte{fb}
+			if rng.Chance(35) {
+				plain, _ := proto.Marshal(&pb.Block{Version: proto.Uint32(3), Symbols: []string{"zz"}, FactsV2: []*pb.FactV2{{Predicate: &pb.PredicateV2{Name: proto.Uint64(1024), Terms: []*pb.TermV2{{Content: &pb.TermV2_Integer{Integer: 1}}}}}}})
+				blocks = [][]byte{plain, fb} // note: the focused block's own symbols then start at 1025
+			}
+			bs, root := signEnvelope(rng, blocks, rng.Chance(15), -1)
+			out = append(out, advToken{"adversarial-single-fault:" + fault, bs, root})
+			continue
+		}
 		nb := 1 + rng.Intn(3)
 		var blocks [][]byte
 		for j := 0; j < nb; j++ {
@@ -358,7 +550,7 @@ func genAdversarial(rng *RNG, n int) []advToken {
 }
 
 func runC10(res *Result, rng *RNG, tier string, outDir string) {
-	res.Rule = "three streams, every case run through the whole pipeline (Unmarshal, String, Code, RevocationIds, GetBlockID, Serialize, CreateBlock+Append, Seal, AuthorizerFor, a fixed authorizer panel, Authorize, Query) in a WORKER PROCESS (a panic on a library-owned goroutine cannot be recovered): (1) raw byte strings: random, truncations and bit flips of valid tokens; (2) schema-valid messages with adversarial field values generated from the schema (symbol indexes 28, 1023, 2^31, 2^32, 2^63, 2^64-1; variables in facts; empty / heterogeneous / nested sets and sets of bytes; ill-formed operator sequences; operators without kind or with unknown kind; terms without member; versions 0,2,4,absent; duplicate and non-UTF-8 symbols; next secrets of length 0,3,31,33,64), VALIDLY SIGNED by an attacker root key so that evaluation is reached; (3) envelope mutations of library-built tokens. Oracle: no stage may panic or kill the worker. The Coq model predicts the class of every stage (unmarshal error class, verification, verdict, world, query result). Non-trivial = the input reaches block decoding (streams 2,3) ; distinct by input bytes."
+	res.Rule = "three streams, every case run through the whole pipeline (Unmarshal, String, Code, RevocationIds, GetBlockID, Serialize, CreateBlock+Append, Seal, AuthorizerFor, a fixed authorizer panel, Authorize, Query) in a WORKER PROCESS (a panic on a library-owned goroutine cannot be recovered): (1) raw byte strings: random, truncations and bit flips of valid tokens; (2) schema-valid messages with adversarial field values generated from the schema (symbol indexes 28, 1023, 2^31, 2^32, 2^63, 2^64-1; variables in facts; empty / heterogeneous / nested sets and sets of bytes; ill-formed operator sequences; operators without kind or with unknown kind; terms without member; versions 0,2,4,absent; duplicate and non-UTF-8 symbols; next secrets of length 0,3,31,33,64), VALIDLY SIGNED by an attacker root key so that evaluation is reached — half of them wild (many adversarial values at once), half SINGLE-FAULT: a valid block with exactly one fault (string / variable / predicate-name index out of range at a random position, a join through a repeated variable or a body constant over every value type incl. byte arrays and sets, an ill-formed operator sequence, a malformed term or set, a variable in a fact, an invalid rule followed by a failing expression, arithmetic at the 64-bit boundary, a regular expression, a defective symbol table, an unsupported version) so that every stage up to the one concerned is passed; (3) envelope mutations of library-built tokens. Oracle: no stage may panic or kill the worker. The Coq model predicts the class of every stage (unmarshal error class, verification, verdict, world, query result). Non-trivial = the input reaches block decoding (streams 2,3) ; distinct by input bytes."
 	nAdv, nRaw := 260, 120
 	if tier == "thorough" {
 		nAdv, nRaw = 3000, 1200
